@@ -69,6 +69,8 @@ def check(run):
     esc(run, p)
     bracket(run, p, I, flags, 'C03')
     widen(run, p, I)
+    engine(run, p)
+    catsync(run, p)
     from .. import ief, triage
     ief.run_ief(run, 'C03', [p.fn(RX + 'extract'), p.fn(RX + 'pdextract')], triage=triage.IEF)
     run.floor('C03-IEF', run.units['ief_functions_checked'], 60)
@@ -371,3 +373,37 @@ def widen(run, p, I):
            '%d (min, max, fixed) inputs evaluated by abstract interpretation%s' % (n, '' if not bad else
                                                                                   '; narrowed: %r -> %r' % bad[0]), fn=f)
     run.floor('C03-WIDEN', n, 80)
+
+
+def engine(run, p):
+    run.rule('C03-ENGINE', 'rexpy classifies characters and self-checks with the standard library re module, the engine its Python-dialect '
+                           'output is documented to be interpreted by')
+    m = p.mod('tdda.rexpy.rexpy')
+    binders = [n for n in ast.walk(m.tree) if isinstance(n, (ast.Import, ast.ImportFrom)) and any((a.asname or a.name.split('.')[0]) == 're' for a in n.names)]
+    ok = len(binders) == 1 and isinstance(binders[0], ast.Import) and any(a.name == 're' and a.asname in (None, 're') for a in binders[0].names)
+    line = binders[0].lineno if binders else 1
+    run.ob('C03-ENGINE', 'tdda.rexpy.rexpy:re', ok, 'the name re in rexpy.py is bound by `%s`' % (norm(binders[0]) if binders else None), rel=m.rel, line=line)
+    run.floor('C03-ENGINE', 1, 1)
+
+
+def catsync(run, p):
+    run.rule('C03-CATSYNC', 'the internal and the output category sets are built together from the same thinned extra letters: both '
+                            'Categories(...) constructions sit in Extractor.__init__ with no change to the examples in between')
+    ex = p.cls('Extractor')
+    sites = []
+    for f in ex.methods.values():
+        for x in p.own_nodes(f):
+            if isinstance(x, ast.Call) and getattr(x.func, 'id', '') == 'Categories':
+                sites.append((f, x))
+    fns = {f.name for f, x in sites}
+    ok = len(sites) >= 2 and fns == {'__init__'}
+    if ok:
+        f = sites[0][0]
+        lo, hi = min(x.lineno for _, x in sites), max(x.lineno for _, x in sites)
+        between = [s for s in ast.walk(f.node) if isinstance(s, (ast.Assign, ast.Expr)) and lo < s.lineno < hi and 'self.examples' in ast.unparse(s)
+                   and not any(s is y or any(z is y for z in ast.walk(s)) for _, y in sites)]
+        args = {norm(x.args[0]) for _, x in sites if x.args}
+        ok = not between and len(args) == 1
+    run.ob('C03-CATSYNC', 'Extractor:Categories', ok, 'Categories(...) is constructed in %s with first arguments %s' % (sorted(fns), sorted({norm(x.args[0]) for _, x in sites if x.args})),
+           fn=sites[0][0] if sites else ex.methods['__init__'], node=sites[-1][1] if sites else None)
+    run.floor('C03-CATSYNC', len(sites), 2)
